@@ -416,6 +416,10 @@ def exec_for(engine, ctx, st: ast.For, env: Env):
     inv = engine.reg.loops.get((qual, loop_ordinal(env, st)))
     if inv is not None:
         return exec_for_invariant(engine, ctx, st, env, it, inv)
+    from . import strmodel as _sm
+
+    if _sm.ENABLED and _sm.is_symbolic_string(it):
+        return _sm.exec_for_string(engine, ctx, st, env, it)
     if st.orelse:
         raise EngineLimit("for/else over a symbolic domain")
     if not mutates_outer_collections(st.body, env):
